@@ -35,7 +35,7 @@ func pow(b, k int) int {
 func (prop) Gen(r *core.Rand, tier string) []core.Case {
 	nSmall, nMed, nBig, nTiny := 110, 10, 7, 90
 	if tier == "thorough" {
-		nSmall, nMed, nBig, nTiny = 1200, 120, 60, 1500
+		nSmall, nMed, nBig, nTiny = 600, 60, 20, 700
 	}
 	C := fc.C
 	cs := []core.Case{
